@@ -65,7 +65,7 @@ def check_spec(case):
     pop = W.populated(spec)
     fails, labels, nts, n = [], [], [], 0
     with G.workdir() as d:
-        paths = G.write_files(spec, d)
+        paths = G.write_files(spec, d, links=case.get('links'), stale=case.get('stale', True))
         full = sut.ExcelModel().loads(*paths).finish()
         g0 = graph_sig(full)
         flat_full, conf = G.flatten(full.calculate())
@@ -166,8 +166,11 @@ def _outsets(draw, spec):
 
 
 def _specs(tier):
+    # links: references to the other book in the numbered form of xlsx files ([k]Sheet!A1 + external link parts)
     return G.specs(tier, max_books=2, wholecols=False).flatmap(
-        lambda spec: _outsets(spec).map(lambda o: {'k': 'spec', 'spec': spec, 'singletons': True, 'outsets': o}))
+        lambda spec: st.tuples(_outsets(spec), st.one_of(st.none(), st.integers(0, 7)), st.booleans()).map(
+            lambda ol: {'k': 'spec', 'spec': spec, 'singletons': True, 'outsets': ol[0], 'links': ol[1] if len(spec['books']) > 1 else None,
+                        'stale': ol[2]}))
 
 
 def _has_wc(spec):
@@ -209,6 +212,36 @@ def _multi_array_specs():
     return out
 
 
+def _spill_outside_specs():
+    """Fixed shapes (added after seed c15-b-r3): an array formula whose area runs beyond the rectangle of STORED cells of its
+    sheet (only the anchor is stored, as openpyxl writes it); the requested outputs, on another sheet, read cells / ranges that
+    lie wholly in that outer part, straddle its border, or lie inside."""
+    out = []
+    for orient in ('row', 'col'):
+        for stale in (False, True):
+            D = [0, 1]  # sheet DATA
+
+            def at(i, j):  # i along the spill direction (1..5), j across (1..2)
+                return D + ([j, i] if orient == 'row' else [i, j])
+
+            def rect(i1, i2, j):
+                return D + ([j, i1, j, i2] if orient == 'row' else [i1, j, i2, j])
+            cells = [{'at': at(1, 1), 'v': 3.0}, {'at': at(2, 1), 'v': 4.0}]
+            anchor = at(1, 2)
+            end = at(5, 2)
+            cells.append({'at': anchor, 'f': ['bin', '+', ['rng', rect(1, 5, 1)], ['num', 10.0]], 'arr': end[2:]})
+            M = [0, 0]
+            cells.append({'at': M + [1, 1], 'f': ['fn', 'SUM', ['rng', rect(4, 5, 2)]]})            # wholly outside the stored rectangle
+            cells.append({'at': M + [2, 1], 'f': ['bin', '+', ['ref', at(5, 2)], ['num', 1.0]]})    # one cell outside
+            cells.append({'at': M + [3, 1], 'f': ['fn', 'SUM', ['rng', rect(2, 5, 2)]]})            # straddles the border
+            cells.append({'at': M + [4, 1], 'f': ['fn', 'SUM', ['rng', rect(1, 2, 2)]]})            # inside
+            cells.append({'at': M + [5, 1], 'f': ['bin', '*', ['ref', M + [1, 1]], ['num', 2.0]]})
+            spec = {'books': [{'name': 'b0.xlsx', 'sheets': ['MAIN', 'DATA']}], 'cells': cells, 'names': []}
+            outs = [[M + [r, 1, r, 1]] for r in (1, 2, 3, 4, 5)] + [[M + [1, 1, 1, 1], M + [4, 1, 4, 1]]]
+            out.append({'k': 'spec', 'spec': spec, 'singletons': False, 'outsets': outs, 'stale': stale})
+    return out
+
+
 STRATEGIES = {'specs': _specs, 'wholecol': _specs_wc}
 
 
@@ -218,4 +251,5 @@ def parts(tier, seed):
         ('hyp', 'specs', 192 if q else 4000, 6),
         ('hyp', 'wholecol', 4 if q else 160, 1, {'nproc': 6}),
         ('enum', 'multi-array', _multi_array_specs(), 1, False),
+        ('enum', 'spill-outside-stored-area', _spill_outside_specs(), 1, False),
     ]
